@@ -339,3 +339,54 @@ func FSList() []string { return nil }
 // FixRandom makes crypto/rand deliver constant bytes in the engine (for code
 // whose random draws only name things, e.g. temporary files).
 func FixRandom(b byte) {}
+
+// ---- structured host:port strings (C06) ----
+
+// HostPort prints a covert-address string of a given textual shape: an address
+// literal (ip: 4 or 16 bytes; mappedText prints 4 bytes as ::ffff:a.b.c.d) with
+// optional zone, or a name; optionally bracketed; optionally followed by
+// ":"+port.
+func HostPort(ip []byte, mappedText bool, zone, name string, bracket, hasPort bool, port string) string {
+	h := name
+	if len(ip) > 0 {
+		h = net.IP(ip).String()
+		if mappedText {
+			h = "::ffff:" + h
+		}
+		if zone != "" {
+			h += "%" + zone
+		}
+	}
+	if bracket {
+		h = "[" + h + "]"
+	}
+	if hasPort {
+		h += ":" + port
+	}
+	return h
+}
+
+// SplitResult parses "literal-address:port" (as accepted by net.Dial).
+func SplitResult(s string) (ip []byte, zone string, port string, ok bool) {
+	host, port, err := net.SplitHostPort(s)
+	if err != nil {
+		return nil, "", "", false
+	}
+	for i := 0; i < len(host); i++ {
+		if host[i] == '%' {
+			host, zone = host[:i], host[i+1:]
+			break
+		}
+	}
+	p := net.ParseIP(host)
+	if p == nil {
+		return nil, "", "", false
+	}
+	return p.To16(), zone, port, true
+}
+
+// ResolveCount: number of name resolutions performed so far (engine); -1 natively.
+func ResolveCount() int { return -1 }
+
+// LastResolved: the first answer of the scripted resolver (engine); nil natively.
+func LastResolved() []byte { return nil }
